@@ -469,5 +469,62 @@ func (m *C15Mon) Wait(h *Hand, s *pokerface.GameState) {
 			return
 		}
 	}
+	// composed views: a state that already went through one view is prepared for another viewer (a
+	// server that derives the observer copy from a player copy); the second viewer must still see
+	// nothing hidden. Also: snapshots whose players carry no evaluation object (written by another
+	// service) must be redacted like any other.
+	if n > 0 {
+		allowedFor := func(v int) map[string]bool {
+			a := map[string]bool{}
+			for _, x := range s.Status.Board {
+				a[x] = true
+			}
+			for _, p := range s.Players {
+				if p.Idx == v || (closed && !p.Fold) {
+					for _, x := range p.HoleCards {
+						a[x] = true
+					}
+				}
+			}
+			return a
+		}
+		i, j := h.R.Intn(n), h.R.Intn(n)
+		type comp struct {
+			name  string
+			apply func(gs *pokerface.GameState)
+			final int
+		}
+		comps := []comp{
+			{fmt.Sprintf("AsPlayer(%d) then AsObserver()", i), func(gs *pokerface.GameState) { gs.AsPlayer(i); gs.AsObserver() }, -1},
+			{fmt.Sprintf("AsPlayer(%d) then AsPlayer(%d)", i, j), func(gs *pokerface.GameState) { gs.AsPlayer(i); gs.AsPlayer(j) }, j},
+			{fmt.Sprintf("AsObserver() then AsPlayer(%d)", j), func(gs *pokerface.GameState) { gs.AsObserver(); gs.AsPlayer(j) }, j},
+			{"no evaluation objects, AsObserver()", func(gs *pokerface.GameState) {
+				for _, p := range gs.Players {
+					p.Combination = nil
+				}
+				gs.AsObserver()
+			}, -1},
+			{fmt.Sprintf("no evaluation objects, AsPlayer(%d)", j), func(gs *pokerface.GameState) {
+				for _, p := range gs.Players {
+					p.Combination = nil
+				}
+				gs.AsPlayer(j)
+			}, j},
+		}
+		for _, c := range comps {
+			cl := cloneGS(s)
+			c.apply(cl)
+			h.Rep.Inc("oracle_evaluations")
+			h.Rep.Inc("composed_views")
+			b, _ := json.Marshal(cl)
+			al := allowedFor(c.final)
+			for _, mm := range cardRe.FindAllString(string(b), -1) {
+				if !al[mm[1:3]] {
+					h.Fail("C15/leak", fmt.Sprintf("viewer=composed,closed=%v", closed), fmt.Sprintf("state prepared by %s at %s contains hidden card %s", c.name, ev, mm))
+					return
+				}
+			}
+		}
+	}
 	h.Rep.Seen("nontrivial", fmt.Sprint(ev, s.Status.Round, nfold, len(s.Players))+strings.Join(s.Status.Board, ""))
 }
